@@ -186,7 +186,8 @@ RECURSIVE FixArrFrom(_, _, _, _, _)
 FixArrFrom(s, p, hold, pending, out) ==
     LET c == At(s, p) IN
     IF c = -1 THEN (IF pending # 0 THEN RwErr ELSE out)
-    ELSE IF c = BS THEN FixArrFrom(s, p + 2, hold, pending, out \o (IF At(s, p + 1) = -1 THEN <<c>> ELSE <<c, At(s, p + 1)>>))
+    \* a backslash takes the next character with it inside a quoted string only
+    ELSE IF c = BS /\ hold \in {SQ, DQ} THEN FixArrFrom(s, p + 2, hold, pending, out \o (IF At(s, p + 1) = -1 THEN <<c>> ELSE <<c, At(s, p + 1)>>))
     ELSE IF c \in {DQ, SQ, BT} THEN
         FixArrFrom(s, p + 1, IF hold = 0 THEN c ELSE IF hold = c THEN 0 ELSE hold, pending, Append(out, c))
     ELSE IF hold # 0 THEN FixArrFrom(s, p + 1, hold, pending, Append(out, c))
